@@ -217,8 +217,10 @@ def rule_bookkeeping(chk, prog):
         if ini is None or "connRefs.begin()" not in norm(ini.get("init")) or not (
                 "connRefs.end()" in norm(L.get("cond"), sal) or norm(L.get("cond")) == "(%s != fin)" % ini["name"]):
             bad = "the pin-freeing loop does not cover connRefs.begin()..end()"
-        elif g.iteration_can_skip(L, [free[0]["id"]]) is not None:
-            bad = "freeActivePins is skipped for some connectors"
+        elif g.iteration_can_skip(L, [free[0]["id"]]) is not None and [
+                a for a in atoms(path_condition(fn, free[0], inline=False, early=True)) if "hasFixedRoute" not in a and a != norm(L.get("cond"))]:
+            # (connectors with a fixed route are not routed again and keep their pins: FIXED-ROUTE-KEEPS-PINS)
+            bad = "freeActivePins is skipped for connectors that are routed again"
         else:
             cond_id = strip(L["cond"])["id"]
             for g_ in gen:
@@ -679,6 +681,73 @@ def rule_checkpoints_change_reroutes(chk, prog):
         (r.bad if bad else r.ok)(q.split("::")[-1], fn.where(), bad or "")
 
 
+def rule_no_nested_transaction(chk, prog):
+    from ..callgraph import CallGraph
+    r = chk.rule("NO-NESTED-TRANSACTION", "Router::processActions moves the ends of the connectors attached to a moved shape / junction through the "
+                 "public Router::modifyConnector, which starts processTransaction() itself when transactions are off; the action being "
+                 "processed is still in the list then, so the nested transaction processes it again, without end.  Every call of "
+                 "processTransaction that the call graph reaches from processActions is guarded by !m_consolidate_actions, and processActions "
+                 "sets m_consolidate_actions before its first call that reaches such a site and restores the saved value on every way out", floor=3)
+    cg = CallGraph(prog)
+    pa = prog.fn("Avoid::Router::processActions")
+    pt = prog.fn("Avoid::Router::processTransaction")
+    reach = cg.reachable([pa.key])
+    sites = [(f, n) for f, n in cg.callers(pt.key) if f.key in reach and f.key != pa.key]
+    if not sites:
+        raise AnalysisBroken("no call of processTransaction is reachable from processActions any more: rule out of date")
+    g = CFG(pa)
+    sets = [node for lhs, node, op in writes(pa) if written_field(lhs)[0] == "Avoid::Router::m_consolidate_actions" and op == "="]
+    force = [n for n in sets if literal_value(n["ch"][1]) == "true"]
+    saved = [d for d in pa.nodes() if d.get("k") == "VarDecl" and d.get("init") is not None and "m_consolidate_actions" in norm(d["init"])]
+    restore = [n for n in sets if saved and any(x.get("k") == "DeclRefExpr" and x.get("did") == saved[0].get("did") for x in walk(n["ch"][1]))]
+    for f, n in sites:
+        r.count()
+        inst = "processTransaction() in %s" % f.q
+        pc = path_condition(f, n, inline=False)
+        if not entails(pc, ("not", ("atom", "m_consolidate_actions"))):
+            r.bad(inst, f.loc(n), "this call is reachable from processActions (%s) and not guarded by !m_consolidate_actions" % " -> ".join(
+                k.split("(")[0].split("::")[-1] for k in (cg.path(pa.key, lambda k_: k_ == f.key) or [])))
+            continue
+        bad = None
+        if not force or not saved or not restore:
+            bad = "processActions does not %s: with transactions off the nested call processes the same action list again (endless recursion)" % (
+                "force m_consolidate_actions to true" if not force else "save / restore m_consolidate_actions")
+        else:
+            first = [c for c in calls(pa) if c.get("callee") and f.key in cg.reachable([c["callee"]] + sorted(cg.overriders.get(c["callee"], ())) if c.get("virt") else [c["callee"]])]
+            for c in first:
+                w = g.must_precede([force[0]["id"]], c["id"])
+                if w is not None:
+                    bad = "the call at line %s reaches %s before m_consolidate_actions is forced (%s)" % (c.get("l"), f.q, g.describe(w))
+                    break
+            if not bad:
+                w = g.must_follow(force[0], [x["id"] for x in restore])
+                if w is not None:
+                    bad = "a way out of processActions leaves m_consolidate_actions forced (%s): transactions stay on for the caller" % g.describe(w)
+        (r.bad if bad else r.ok)(inst, f.loc(n), bad or "")
+
+
+def rule_fixed_route_keeps_pins(chk, prog):
+    r = chk.rule("FIXED-ROUTE-KEEPS-PINS", "Router::rerouteAndCallbackConnectors frees the active pins of the connectors it is about to route again; "
+                 "a connector with a fixed route is skipped by the routing loops that follow, so its pins must not be freed either (path "
+                 "condition of the freeActivePins call entails !hasFixedRoute()) -- otherwise its exclusive pin looks free and the next "
+                 "connector of that class takes it too", floor=1)
+    fn = prog.fn("Avoid::Router::rerouteAndCallbackConnectors")
+    fr = [c for c in calls(fn) if c.get("cname") == "Avoid::ConnRef::freeActivePins"]
+    if not fr:
+        raise AnalysisBroken("rerouteAndCallbackConnectors no longer frees active pins: rule out of date")
+    gen = [c for c in calls(fn) if c.get("cname") == "Avoid::ConnRef::generatePath"]
+    skip = [c for c in gen if any("hasFixedRoute" in a for a in atoms(path_condition(fn, c, inline=False, early=True)))]
+    if not skip:
+        raise AnalysisBroken("the routing loops of rerouteAndCallbackConnectors no longer skip fixed-route connectors: rule out of date")
+    for c in fr:
+        r.count()
+        pc = path_condition(fn, c, inline=False, early=True)
+        ats = [a for a in atoms(pc) if "hasFixedRoute" in a]
+        ok = bool(ats) and entails(pc, ("not", ("atom", ats[0])))
+        (r.ok if ok else r.bad)("freeActivePins in rerouteAndCallbackConnectors", fn.loc(c), "" if ok else
+                                "the pins of fixed-route connectors are freed although those connectors are not routed again (condition: %s)" % show(pc))
+
+
 def rule_endpoint_takes_connend(chk, prog):
     r = chk.rule("ENDPOINT-TAKES-NEW-CONNEND", "ConnRef::common_updateEndPoint: whenever the new end is a pin / junction connection, the connector's "
                  "m_src_connend (m_dst_connend) becomes a fresh copy of the GIVEN ConnEnd -- under no condition other than the end type and "
@@ -751,6 +820,8 @@ def run(chk):
     prog = chk.load()
     chk.guard(rule_improver_checkpoints, chk, prog)
     chk.guard(rule_checkpoints_change_reroutes, chk, prog)
+    chk.guard(rule_no_nested_transaction, chk, prog)
+    chk.guard(rule_fixed_route_keeps_pins, chk, prog)
     chk.guard(rule_endpoint_takes_connend, chk, prog)
     chk.guard(rule_pin_by_vertex, chk, prog)
     chk.guard(rule_checkpoints_on_segment, chk, prog)
